@@ -18,6 +18,7 @@ type Conn struct {
 	demux      *demux
 	inbound    bool
 	dataFrames <-chan frame
+	readBuf    []byte // Remainder of a data frame that did not fit in the buffer of the previous Read call.
 
 	srcCall, dstCall string
 	via              []string
@@ -162,6 +163,11 @@ func (c *Conn) Write(p []byte) (int, error) {
 }
 
 func (c *Conn) Read(p []byte) (int, error) {
+	if len(c.readBuf) > 0 {
+		n := copy(p, c.readBuf)
+		c.readBuf = c.readBuf[n:]
+		return n, nil
+	}
 	ctx := context.Background()
 	if !c.readDeadline.IsZero() {
 		var cancel func()
@@ -176,11 +182,9 @@ func (c *Conn) Read(p []byte) (int, error) {
 		if !ok {
 			return 0, io.EOF
 		}
-		if len(p) < len(f.Data) {
-			panic("buffer overflow")
-		}
-		copy(p, f.Data)
-		return len(f.Data), nil
+		n := copy(p, f.Data)
+		c.readBuf = f.Data[n:]
+		return n, nil
 	}
 }
 
